@@ -73,6 +73,8 @@ def _gen_retries(rng):
         spec["raise_on_status"] = False
     if rng.random() < 0.2:
         spec["raise_on_redirect"] = False
+    if rng.random() < 0.25:
+        spec["backoff_factor"] = rng.choice([0.5, 2.0])  # waits between attempts: places where an interrupt can land
     if rng.random() < 0.2:
         spec["allowed_methods"] = None
     return spec
@@ -94,7 +96,8 @@ def _gen_exchange(rng, faulty: bool):
     if c < 0.55:
         return {"k": "resp", "status": rng.choice([301, 302, 303, 307, 308]), "headers": [["Location", rng.choice(["/next", "/loop", "/r0"])]], "body": "moved"}
     if c < 0.62:
-        return {"k": "resp", "status": rng.choice([429, 503]), "headers": [["Retry-After", str(rng.choice([0, 1, 2]))]], "body": "later"}
+        # (a Retry-After that is neither a number nor a date makes the wait itself fail, after the response has been taken)
+        return {"k": "resp", "status": rng.choice([429, 503, 503, 413]), "headers": [["Retry-After", str(rng.choice([0, 1, 2, 2, "soon", "-1"]))]], "body": "later", "framing": rng.choice(["cl", "cl", "chunked"])}
     if c < 0.70:
         return {"k": "eof"}
     if c < 0.76:
@@ -191,6 +194,10 @@ def cases(seed: int, k: int, tier: str):
                     f["after"] = "half"
                 sc["step_faults"] = [f]
                 yield sc
+        for n in range(min(int(res.info.get("n_sleeps", 0)), 3)):
+            sc = copy.deepcopy(base)
+            sc["sleep_faults"] = [{"n": n, "kind": "intr"}]
+            yield sc
     else:
         sc = gen_base(rng, tier, faulty=True)
         nd = rng.choice([0, 0, 1, 2])
@@ -198,6 +205,19 @@ def cases(seed: int, k: int, tier: str):
         nf = rng.choice([0, 0, 1, 1, 2, 3])
         for _ in range(nf):
             sc["step_faults"].append({"at": rng.randrange(0, 40), "kind": rng.choice(["reset", "timeout", "eof", "intr", "epipe", "eio", "eprototype", "refused"]), "after": rng.choice([0, "half"])})
+        if rng.random() < 0.12:
+            # a wait between attempts, with an interrupt or an unusable header value in it: first answer asks to come back later
+            ex0 = {"k": "resp", "status": rng.choice([429, 503, 413]), "headers": [["Retry-After", rng.choice(["1", "2", "soon"])]], "body": "later", "framing": rng.choice(["cl", "chunked"])}
+            sc["exchanges"].insert(rng.choice([0, 0, 1]) if sc["exchanges"] else 0, ex0)
+            if rng.random() < 0.7:
+                sc["config"]["retries"] = rng.choice(["default", 2, {"total": 3, "backoff_factor": 1.0}])
+            for o in sc["ops"]:
+                if o["op"] == "request" and rng.random() < 0.7:
+                    o["method"] = "GET"
+                    o.pop("body", None)
+        waits = any("Retry-After" in str(x.get("headers")) for x in sc["exchanges"]) or (isinstance(sc["config"]["retries"], dict) and sc["config"]["retries"].get("backoff_factor"))
+        if rng.random() < (0.4 if waits else 0.05):
+            sc["sleep_faults"] = [{"n": rng.choice([0, 0, 1]), "kind": "intr"}]
         if sc["config"]["path"].startswith("tunnel") and rng.random() < 0.3:
             sc["connects"] = [rng.choice([{"k": "resp", "status": 403}, {"k": "eof"}, {"k": "rst"}, {"k": "stall"}, {"k": "resp", "status": 200}, {"k": "garbage"}])]
         yield sc
@@ -371,6 +391,7 @@ def run(sc: dict) -> Result:
                 r = None
             out = None
             res.info["io_ops"] = list(w.io_ops)
+            res.info["n_sleeps"] = len(w.clock.sleeps)
             res.info["K"] = w.io_step
             res.faults.update(w.faults_fired)
             if any(q.peer == "proxy" and q.method == "CONNECT" for q in w.requests):
@@ -498,7 +519,7 @@ def shrinks(sc: dict):
         c = copy.deepcopy(sc)
         del c["close_without_probe"]
         yield c
-    for key in ("step_faults", "dials", "exchanges", "connects"):
+    for key in ("step_faults", "sleep_faults", "dials", "exchanges", "connects"):
         for i in range(len(sc.get(key) or [])):
             c = copy.deepcopy(sc)
             del c[key][i]
